@@ -84,28 +84,108 @@ fn errs_match(errs: &Errors, f: &Facts) -> bool {
     ok
 }
 
-fn any_items() -> ([Item; N_ITEMS], usize) {
-    let items: [Item; N_ITEMS] = [Item::Ok; N_ITEMS].map(|_| Item::any());
-    let n: usize = kani::any();
-    kani::assume(n <= N_ITEMS);
-    (items, n)
+/// The item sequences of one split harness: `first == None` is the empty reply; otherwise the
+/// first item is the given (concrete) kind, followed by nothing or by one symbolic item.
+/// Splitting on the first item keeps every formula small (each split is decided on its own,
+/// the splits run in parallel); together the splits cover every sequence of <= 2 items.
+fn items_with_first(first: Option<Item>, fam: Option<Fam>) -> ([Item; N_ITEMS], usize) {
+    match first {
+        None => ([Item::Ok; N_ITEMS], 0),
+        Some(k) => {
+            let more: bool = kani::any();
+            let second = match fam {
+                None => Item::any(),
+                Some(f) => f.member(),
+            };
+            ([k, second], if more { 2 } else { 1 })
+        }
+    }
 }
 
-/// C08, `EmptyReply` (close-session, edit-config, lock, commit, ...): every reply of up to 3
-/// grammar items.
-#[kani::proof]
-#[kani::unwind(10)]
-#[kani::stub(<crate::message::rpc::Error as crate::message::ReadXml>::read_xml, crate::message::rpc::error::verif_error::stub_read_xml)]
-#[kani::stub(crate::message::rpc::Errors::new, crate::message::rpc::error::verif_error::stub_errors_new)]
-#[kani::stub(crate::message::rpc::Errors::push, crate::message::rpc::error::verif_error::stub_errors_push)]
-fn c08_empty_reply() {
+/// Family of the second item of a split: items that share their element name (a window whose
+/// *name* is symbolic makes every name comparison of the reader a 43-step memcmp over an
+/// `ite` of pointers; within a family only the severity tag of `<rpc-error>` varies).
+#[derive(Clone, Copy)]
+pub enum Fam {
+    Ok,
+    /// `<rpc-error>` with symbolic severity
+    Err,
+    Data,
+    OkPair,
+    Comment,
+    Other,
+    ForeignOk,
+    Text,
+}
+
+impl Fam {
+    fn member(self) -> Item {
+        match self {
+            Fam::Ok => Item::Ok,
+            Fam::Err => {
+                if kani::any() {
+                    Item::ErrError
+                } else {
+                    Item::ErrWarning
+                }
+            }
+            Fam::Data => Item::Data,
+            Fam::OkPair => Item::OkPair,
+            Fam::Comment => Item::Comment,
+            Fam::Other => Item::Other,
+            Fam::ForeignOk => Item::ForeignOk,
+            Fam::Text => Item::Text,
+        }
+    }
+}
+
+/// Tape for a split: every item occupies a fixed window of `WINDOW` tape positions (shorter
+/// items are padded through the `skip` field of their last cell, an absent second item is a
+/// NOP window).  All pushes are unconditional, so the tape length and every cursor position are
+/// constants for symex: the reader's first iteration is a single path, the second one branches
+/// over the symbolic window, the closing tag is concrete again and ends the loop.
+fn split_tape(first: Option<Item>, items: &[Item; N_ITEMS], n: usize) -> Tape {
+    let mut t = Tape::EMPTY;
+    if let Some(k) = first {
+        push_window(&mut t, window_stubbed(Some(k)));
+        push_window(&mut t, window_stubbed(if n == 2 { Some(items[1]) } else { None }));
+    }
+    reply_close(&mut t);
+    t
+}
+
+/// One `#[kani::proof]` per (reader body, first item).
+macro_rules! split_harnesses {
+    ($body:ident: $( $name:ident => ($first:expr, $fam:expr) ),* $(,)?) => {
+        $(
+            #[kani::proof]
+            #[kani::unwind(10)]
+            #[kani::stub(<crate::message::rpc::operation::Opaque as crate::message::ReadXml>::read_xml, stub_opaque_read_xml)]
+            #[kani::stub(<crate::message::rpc::Error as crate::message::ReadXml>::read_xml, crate::message::rpc::error::verif_error::stub_read_xml)]
+            #[kani::stub(crate::message::rpc::Errors::new, crate::message::rpc::error::verif_error::stub_errors_new)]
+            #[kani::stub(crate::message::rpc::Errors::push, crate::message::rpc::error::verif_error::stub_errors_push)]
+            fn $name() {
+                $body($first, $fam)
+            }
+        )*
+    };
+}
+
+/// C08, `EmptyReply` (close-session, edit-config, lock, commit, ...): every reply of up to 2
+/// grammar items, split on the first item.
+fn empty_reply_body(first: Option<Item>, fam: Option<Fam>) {
     use_reply_tables();
-    let (items, n) = any_items();
-    tape::register(0, stubbed_content_tape(&items, n));
+    let (items, n) = items_with_first(first, fam);
+    empty_reply_check(&items, n, split_tape(first, &items, n));
+    kani::cover!(first.is_none() || n == 2, "the longest reply of this split reaches the checks");
+}
+
+fn empty_reply_check(items: &[Item; N_ITEMS], n: usize, t: Tape) {
+    tape::register(0, t);
     let mut reader = reader_for(0);
     let start = BytesStart::from_id(n::RPC_REPLY);
     let res = EmptyReply::read_xml(&mut reader, &start);
-    let f = facts(&items, n);
+    let f = facts(items, n);
     match &res {
         Ok(EmptyReply::Ok) => {
             assert!(!f.has_error_sev_error, "C08 EmptyReply: a reply carrying rpc-error(error) was reported as success");
@@ -116,17 +196,68 @@ fn c08_empty_reply() {
         }
         Err(_) => {}
     }
-    kani::cover!(matches!(res, Ok(EmptyReply::Ok)), "some reply is Ok");
-    kani::cover!(matches!(res, Ok(EmptyReply::Errs(_))) && f.n_rpc_errors == 2, "some reply carries two errors");
-    kani::cover!(matches!(res, Ok(EmptyReply::Errs(_))) && f.sev[0] == ve::SEV_WARNING, "a warning is reported as an error list");
-    kani::cover!(res.is_err(), "some reply is a read error");
     std::mem::forget(res);
 }
+
+split_harnesses!(empty_reply_body:
+    c08_empty_reply_empty => (None, None),
+    c08_empty_reply_ok_then_ok => (Some(Item::Ok), Some(Fam::Ok)),
+    c08_empty_reply_ok_then_err => (Some(Item::Ok), Some(Fam::Err)),
+    c08_empty_reply_ok_then_data => (Some(Item::Ok), Some(Fam::Data)),
+    c08_empty_reply_ok_then_ok_pair => (Some(Item::Ok), Some(Fam::OkPair)),
+    c08_empty_reply_ok_then_comment => (Some(Item::Ok), Some(Fam::Comment)),
+    c08_empty_reply_ok_then_other => (Some(Item::Ok), Some(Fam::Other)),
+    c08_empty_reply_ok_then_foreign_ok => (Some(Item::Ok), Some(Fam::ForeignOk)),
+    c08_empty_reply_ok_then_text => (Some(Item::Ok), Some(Fam::Text)),
+    c08_empty_reply_err_error_then_ok => (Some(Item::ErrError), Some(Fam::Ok)),
+    c08_empty_reply_err_error_then_err => (Some(Item::ErrError), Some(Fam::Err)),
+    c08_empty_reply_err_error_then_data => (Some(Item::ErrError), Some(Fam::Data)),
+    c08_empty_reply_err_error_then_ok_pair => (Some(Item::ErrError), Some(Fam::OkPair)),
+    c08_empty_reply_err_error_then_comment => (Some(Item::ErrError), Some(Fam::Comment)),
+    c08_empty_reply_err_error_then_other => (Some(Item::ErrError), Some(Fam::Other)),
+    c08_empty_reply_err_error_then_foreign_ok => (Some(Item::ErrError), Some(Fam::ForeignOk)),
+    c08_empty_reply_err_error_then_text => (Some(Item::ErrError), Some(Fam::Text)),
+    c08_empty_reply_err_warning_then_ok => (Some(Item::ErrWarning), Some(Fam::Ok)),
+    c08_empty_reply_err_warning_then_err => (Some(Item::ErrWarning), Some(Fam::Err)),
+    c08_empty_reply_err_warning_then_data => (Some(Item::ErrWarning), Some(Fam::Data)),
+    c08_empty_reply_err_warning_then_ok_pair => (Some(Item::ErrWarning), Some(Fam::OkPair)),
+    c08_empty_reply_err_warning_then_comment => (Some(Item::ErrWarning), Some(Fam::Comment)),
+    c08_empty_reply_err_warning_then_other => (Some(Item::ErrWarning), Some(Fam::Other)),
+    c08_empty_reply_err_warning_then_foreign_ok => (Some(Item::ErrWarning), Some(Fam::ForeignOk)),
+    c08_empty_reply_err_warning_then_text => (Some(Item::ErrWarning), Some(Fam::Text)),
+    c08_empty_reply_first_data => (Some(Item::Data), None),
+    c08_empty_reply_ok_pair_then_ok => (Some(Item::OkPair), Some(Fam::Ok)),
+    c08_empty_reply_ok_pair_then_err => (Some(Item::OkPair), Some(Fam::Err)),
+    c08_empty_reply_ok_pair_then_data => (Some(Item::OkPair), Some(Fam::Data)),
+    c08_empty_reply_ok_pair_then_ok_pair => (Some(Item::OkPair), Some(Fam::OkPair)),
+    c08_empty_reply_ok_pair_then_comment => (Some(Item::OkPair), Some(Fam::Comment)),
+    c08_empty_reply_ok_pair_then_other => (Some(Item::OkPair), Some(Fam::Other)),
+    c08_empty_reply_ok_pair_then_foreign_ok => (Some(Item::OkPair), Some(Fam::ForeignOk)),
+    c08_empty_reply_ok_pair_then_text => (Some(Item::OkPair), Some(Fam::Text)),
+    c08_empty_reply_comment_then_ok => (Some(Item::Comment), Some(Fam::Ok)),
+    c08_empty_reply_comment_then_err => (Some(Item::Comment), Some(Fam::Err)),
+    c08_empty_reply_comment_then_data => (Some(Item::Comment), Some(Fam::Data)),
+    c08_empty_reply_comment_then_ok_pair => (Some(Item::Comment), Some(Fam::OkPair)),
+    c08_empty_reply_comment_then_comment => (Some(Item::Comment), Some(Fam::Comment)),
+    c08_empty_reply_comment_then_other => (Some(Item::Comment), Some(Fam::Other)),
+    c08_empty_reply_comment_then_foreign_ok => (Some(Item::Comment), Some(Fam::ForeignOk)),
+    c08_empty_reply_comment_then_text => (Some(Item::Comment), Some(Fam::Text)),
+    c08_empty_reply_first_other => (Some(Item::Other), None),
+    c08_empty_reply_first_foreign_ok => (Some(Item::ForeignOk), None),
+    c08_empty_reply_first_text => (Some(Item::Text), None),
+);
 
 /// Summary of `Opaque::read_xml` (two lines: `read_text` to the end tag, `into()`): consumes the
 /// element and returns a fixed value.  Building an `Arc<str>` from a text of symbolic length is
 /// what makes the real function expensive; the real one runs in `c08_opaque_reader`.
 pub fn stub_opaque_read_xml(reader: &mut NsReader<&[u8]>, start: &BytesStart<'_>) -> Result<crate::message::rpc::operation::Opaque, ReadError> {
+    // precondition on the reader's own state, as in `stub_read_xml` (error.rs)
+    let last = reader.model_last_cell();
+    let on_data = last.kind == tape::kind::START && last.name == n::DATA && last.ns == BASE;
+    assert!(on_data, "Opaque::read_xml called on an element that is not <data>");
+    if !on_data {
+        return Err(ReadError::NoMessageId);
+    }
     let _ = reader.read_to_end(start.to_end().name())?;
     Ok(crate::message::rpc::operation::Opaque::from("x"))
 }
@@ -163,22 +294,21 @@ fn c08_opaque_reader() {
     std::mem::forget(res);
 }
 
-/// C08, `DataReply<Opaque>` (get, get-config).
-#[kani::proof]
-#[kani::unwind(10)]
-#[kani::stub(<crate::message::rpc::operation::Opaque as crate::message::ReadXml>::read_xml, stub_opaque_read_xml)]
-#[kani::stub(<crate::message::rpc::Error as crate::message::ReadXml>::read_xml, crate::message::rpc::error::verif_error::stub_read_xml)]
-#[kani::stub(crate::message::rpc::Errors::new, crate::message::rpc::error::verif_error::stub_errors_new)]
-#[kani::stub(crate::message::rpc::Errors::push, crate::message::rpc::error::verif_error::stub_errors_push)]
-fn c08_data_reply() {
-    use crate::message::rpc::operation::Opaque;
+/// C08, `DataReply<Opaque>` (get, get-config), split on the first item.
+fn data_reply_body(first: Option<Item>, fam: Option<Fam>) {
     use_reply_tables();
-    let (items, n) = any_items();
-    tape::register(0, stubbed_content_tape(&items, n));
+    let (items, n) = items_with_first(first, fam);
+    data_reply_check(&items, n, split_tape(first, &items, n));
+    kani::cover!(first.is_none() || n == 2, "the longest reply of this split reaches the checks");
+}
+
+fn data_reply_check(items: &[Item; N_ITEMS], n: usize, t: Tape) {
+    use crate::message::rpc::operation::Opaque;
+    tape::register(0, t);
     let mut reader = reader_for(0);
     let start = BytesStart::from_id(n::RPC_REPLY);
     let res = DataReply::<Opaque>::read_xml(&mut reader, &start);
-    let f = facts(&items, n);
+    let f = facts(items, n);
     match &res {
         Ok(DataReply::Data(_)) => {
             assert!(!f.has_error_sev_error, "C08 DataReply: a reply carrying rpc-error(error) was reported as success");
@@ -189,27 +319,68 @@ fn c08_data_reply() {
         }
         Err(_) => {}
     }
-    kani::cover!(matches!(res, Ok(DataReply::Data(_))), "some reply is Data");
-    kani::cover!(matches!(res, Ok(DataReply::Errs(_))), "some reply is Errs");
     std::mem::forget(res);
 }
 
-/// C08, `BareReply` (open-/close-/lock-/unlock-configuration): success = empty reply.
+split_harnesses!(data_reply_body:
+    c08_data_reply_empty => (None, None),
+    c08_data_reply_first_ok => (Some(Item::Ok), None),
+    c08_data_reply_err_error_then_ok => (Some(Item::ErrError), Some(Fam::Ok)),
+    c08_data_reply_err_error_then_err => (Some(Item::ErrError), Some(Fam::Err)),
+    c08_data_reply_err_error_then_data => (Some(Item::ErrError), Some(Fam::Data)),
+    c08_data_reply_err_error_then_ok_pair => (Some(Item::ErrError), Some(Fam::OkPair)),
+    c08_data_reply_err_error_then_comment => (Some(Item::ErrError), Some(Fam::Comment)),
+    c08_data_reply_err_error_then_other => (Some(Item::ErrError), Some(Fam::Other)),
+    c08_data_reply_err_error_then_foreign_ok => (Some(Item::ErrError), Some(Fam::ForeignOk)),
+    c08_data_reply_err_error_then_text => (Some(Item::ErrError), Some(Fam::Text)),
+    c08_data_reply_err_warning_then_ok => (Some(Item::ErrWarning), Some(Fam::Ok)),
+    c08_data_reply_err_warning_then_err => (Some(Item::ErrWarning), Some(Fam::Err)),
+    c08_data_reply_err_warning_then_data => (Some(Item::ErrWarning), Some(Fam::Data)),
+    c08_data_reply_err_warning_then_ok_pair => (Some(Item::ErrWarning), Some(Fam::OkPair)),
+    c08_data_reply_err_warning_then_comment => (Some(Item::ErrWarning), Some(Fam::Comment)),
+    c08_data_reply_err_warning_then_other => (Some(Item::ErrWarning), Some(Fam::Other)),
+    c08_data_reply_err_warning_then_foreign_ok => (Some(Item::ErrWarning), Some(Fam::ForeignOk)),
+    c08_data_reply_err_warning_then_text => (Some(Item::ErrWarning), Some(Fam::Text)),
+    c08_data_reply_data_then_ok => (Some(Item::Data), Some(Fam::Ok)),
+    c08_data_reply_data_then_err => (Some(Item::Data), Some(Fam::Err)),
+    c08_data_reply_data_then_data => (Some(Item::Data), Some(Fam::Data)),
+    c08_data_reply_data_then_ok_pair => (Some(Item::Data), Some(Fam::OkPair)),
+    c08_data_reply_data_then_comment => (Some(Item::Data), Some(Fam::Comment)),
+    c08_data_reply_data_then_other => (Some(Item::Data), Some(Fam::Other)),
+    c08_data_reply_data_then_foreign_ok => (Some(Item::Data), Some(Fam::ForeignOk)),
+    c08_data_reply_data_then_text => (Some(Item::Data), Some(Fam::Text)),
+    c08_data_reply_first_ok_pair => (Some(Item::OkPair), None),
+    c08_data_reply_comment_then_ok => (Some(Item::Comment), Some(Fam::Ok)),
+    c08_data_reply_comment_then_err => (Some(Item::Comment), Some(Fam::Err)),
+    c08_data_reply_comment_then_data => (Some(Item::Comment), Some(Fam::Data)),
+    c08_data_reply_comment_then_ok_pair => (Some(Item::Comment), Some(Fam::OkPair)),
+    c08_data_reply_comment_then_comment => (Some(Item::Comment), Some(Fam::Comment)),
+    c08_data_reply_comment_then_other => (Some(Item::Comment), Some(Fam::Other)),
+    c08_data_reply_comment_then_foreign_ok => (Some(Item::Comment), Some(Fam::ForeignOk)),
+    c08_data_reply_comment_then_text => (Some(Item::Comment), Some(Fam::Text)),
+    c08_data_reply_first_other => (Some(Item::Other), None),
+    c08_data_reply_first_foreign_ok => (Some(Item::ForeignOk), None),
+    c08_data_reply_first_text => (Some(Item::Text), None),
+);
+
+/// C08, `BareReply` (open-/close-/lock-/unlock-configuration): success = empty reply.  Split on
+/// the first item.
 #[cfg(feature = "junos")]
-#[kani::proof]
-#[kani::unwind(10)]
-#[kani::stub(<crate::message::rpc::Error as crate::message::ReadXml>::read_xml, crate::message::rpc::error::verif_error::stub_read_xml)]
-#[kani::stub(crate::message::rpc::Errors::new, crate::message::rpc::error::verif_error::stub_errors_new)]
-#[kani::stub(crate::message::rpc::Errors::push, crate::message::rpc::error::verif_error::stub_errors_push)]
-fn c08_bare_reply() {
-    use crate::message::rpc::operation::junos::BareReply;
+fn bare_reply_body(first: Option<Item>, fam: Option<Fam>) {
     use_reply_tables();
-    let (items, n) = any_items();
-    tape::register(0, stubbed_content_tape(&items, n));
+    let (items, n) = items_with_first(first, fam);
+    bare_reply_check(&items, n, split_tape(first, &items, n));
+    kani::cover!(first.is_none() || n == 2, "the longest reply of this split reaches the checks");
+}
+
+#[cfg(feature = "junos")]
+fn bare_reply_check(items: &[Item; N_ITEMS], n: usize, t: Tape) {
+    use crate::message::rpc::operation::junos::BareReply;
+    tape::register(0, t);
     let mut reader = reader_for(0);
     let start = BytesStart::from_id(n::RPC_REPLY);
     let res = BareReply::read_xml(&mut reader, &start);
-    let f = facts(&items, n);
+    let f = facts(items, n);
     match &res {
         Ok(BareReply::Ok) => {
             assert!(f.n_rpc_errors == 0, "C08 BareReply: a reply carrying an rpc-error was reported as success");
@@ -219,10 +390,170 @@ fn c08_bare_reply() {
         }
         Err(_) => {}
     }
-    kani::cover!(matches!(res, Ok(BareReply::Ok)), "some reply is Ok");
-    kani::cover!(matches!(res, Ok(BareReply::Errs(_))), "some reply is Errs");
     std::mem::forget(res);
 }
+
+#[cfg(feature = "junos")]
+split_harnesses!(bare_reply_body:
+    c08_bare_reply_empty => (None, None),
+    c08_bare_reply_first_ok => (Some(Item::Ok), None),
+    c08_bare_reply_err_error_then_ok => (Some(Item::ErrError), Some(Fam::Ok)),
+    c08_bare_reply_err_error_then_err => (Some(Item::ErrError), Some(Fam::Err)),
+    c08_bare_reply_err_error_then_data => (Some(Item::ErrError), Some(Fam::Data)),
+    c08_bare_reply_err_error_then_ok_pair => (Some(Item::ErrError), Some(Fam::OkPair)),
+    c08_bare_reply_err_error_then_comment => (Some(Item::ErrError), Some(Fam::Comment)),
+    c08_bare_reply_err_error_then_other => (Some(Item::ErrError), Some(Fam::Other)),
+    c08_bare_reply_err_error_then_foreign_ok => (Some(Item::ErrError), Some(Fam::ForeignOk)),
+    c08_bare_reply_err_error_then_text => (Some(Item::ErrError), Some(Fam::Text)),
+    c08_bare_reply_err_warning_then_ok => (Some(Item::ErrWarning), Some(Fam::Ok)),
+    c08_bare_reply_err_warning_then_err => (Some(Item::ErrWarning), Some(Fam::Err)),
+    c08_bare_reply_err_warning_then_data => (Some(Item::ErrWarning), Some(Fam::Data)),
+    c08_bare_reply_err_warning_then_ok_pair => (Some(Item::ErrWarning), Some(Fam::OkPair)),
+    c08_bare_reply_err_warning_then_comment => (Some(Item::ErrWarning), Some(Fam::Comment)),
+    c08_bare_reply_err_warning_then_other => (Some(Item::ErrWarning), Some(Fam::Other)),
+    c08_bare_reply_err_warning_then_foreign_ok => (Some(Item::ErrWarning), Some(Fam::ForeignOk)),
+    c08_bare_reply_err_warning_then_text => (Some(Item::ErrWarning), Some(Fam::Text)),
+    c08_bare_reply_first_data => (Some(Item::Data), None),
+    c08_bare_reply_first_ok_pair => (Some(Item::OkPair), None),
+    c08_bare_reply_comment_then_ok => (Some(Item::Comment), Some(Fam::Ok)),
+    c08_bare_reply_comment_then_err => (Some(Item::Comment), Some(Fam::Err)),
+    c08_bare_reply_comment_then_data => (Some(Item::Comment), Some(Fam::Data)),
+    c08_bare_reply_comment_then_ok_pair => (Some(Item::Comment), Some(Fam::OkPair)),
+    c08_bare_reply_comment_then_comment => (Some(Item::Comment), Some(Fam::Comment)),
+    c08_bare_reply_comment_then_other => (Some(Item::Comment), Some(Fam::Other)),
+    c08_bare_reply_comment_then_foreign_ok => (Some(Item::Comment), Some(Fam::ForeignOk)),
+    c08_bare_reply_comment_then_text => (Some(Item::Comment), Some(Fam::Text)),
+    c08_bare_reply_first_other => (Some(Item::Other), None),
+    c08_bare_reply_first_foreign_ok => (Some(Item::ForeignOk), None),
+    c08_bare_reply_first_text => (Some(Item::Text), None),
+);
+
+// -------------------------------------------------------------------------------------------------
+// C08, element sequences enumerated, leaf values symbolic.
+//
+// Measured: a tape window whose *element kind* is symbolic costs minutes of symbolic execution
+// per reader iteration, a tape of concrete elements with symbolic leaf values (the severity of
+// an <rpc-error>) seconds.  These harnesses therefore walk the element sequences of length <= 2
+// with a concrete loop and leave the severities to the solver.
+
+/// Element kinds of the reply grammar (see `Item`); `Err` stands for both severities.
+#[derive(Clone, Copy, PartialEq, Eq)]
+enum K {
+    Ok,
+    Err,
+    Data,
+    OkPair,
+    Comment,
+    Other,
+    ForeignOk,
+    Text,
+}
+
+const K_QUICK: [K; 3] = [K::Ok, K::Err, K::Data];
+const K_FULL: [K; 8] = [K::Ok, K::Err, K::Data, K::OkPair, K::Comment, K::Other, K::ForeignOk, K::Text];
+
+/// Push the element of kind `k`; `warning` is the (symbolic) severity choice of an `<rpc-error>`.
+/// Returns the `Item` the oracle sees.  The number of cells pushed depends on `k` only.
+fn push_kind(t: &mut Tape, k: K, warning: bool) -> Item {
+    match k {
+        K::Err => {
+            t.push(quick_xml::tape::Cell::start(BASE, n::RPC_ERROR).with_attrs(warning as u8, 0));
+            t.push(ERR_END);
+            if warning {
+                Item::ErrWarning
+            } else {
+                Item::ErrError
+            }
+        }
+        K::Ok => {
+            push_item(t, Item::Ok);
+            Item::Ok
+        }
+        K::Data => {
+            push_item(t, Item::Data);
+            Item::Data
+        }
+        K::OkPair => {
+            push_item(t, Item::OkPair);
+            Item::OkPair
+        }
+        K::Comment => {
+            push_item(t, Item::Comment);
+            Item::Comment
+        }
+        K::Other => {
+            push_item(t, Item::Other);
+            Item::Other
+        }
+        K::ForeignOk => {
+            push_item(t, Item::ForeignOk);
+            Item::ForeignOk
+        }
+        K::Text => {
+            push_item(t, Item::Text);
+            Item::Text
+        }
+    }
+}
+
+/// Run `check` on the empty reply, on every one-element reply and on every two-element reply
+/// over `kinds`, each with fresh symbolic severities.
+fn for_each_sequence<const N: usize>(kinds: &[K; N], check: fn(&[Item; N_ITEMS], usize, Tape)) {
+    use_reply_tables();
+    let mut t0 = Tape::EMPTY;
+    reply_close(&mut t0);
+    check(&[Item::Ok; N_ITEMS], 0, t0);
+    let mut i = 0;
+    while i < N {
+        let w1: bool = kani::any();
+        let mut t1 = Tape::EMPTY;
+        let a = push_kind(&mut t1, kinds[i], w1);
+        reply_close(&mut t1);
+        check(&[a, Item::Ok], 1, t1);
+        let mut j = 0;
+        while j < N {
+            let wa: bool = kani::any();
+            let wb: bool = kani::any();
+            let mut t2 = Tape::EMPTY;
+            let a = push_kind(&mut t2, kinds[i], wa);
+            let b = push_kind(&mut t2, kinds[j], wb);
+            reply_close(&mut t2);
+            check(&[a, b], 2, t2);
+            j += 1;
+        }
+        i += 1;
+    }
+    kani::cover!(true, "all sequences walked");
+}
+
+macro_rules! sequence_harnesses {
+    ($( $name:ident => ($kinds:expr, $check:ident) ),* $(,)?) => {
+        $(
+            #[kani::proof]
+            #[kani::unwind(10)]
+            #[kani::stub(<crate::message::rpc::operation::Opaque as crate::message::ReadXml>::read_xml, stub_opaque_read_xml)]
+            #[kani::stub(<crate::message::rpc::Error as crate::message::ReadXml>::read_xml, crate::message::rpc::error::verif_error::stub_read_xml)]
+            #[kani::stub(crate::message::rpc::Errors::new, crate::message::rpc::error::verif_error::stub_errors_new)]
+            #[kani::stub(crate::message::rpc::Errors::push, crate::message::rpc::error::verif_error::stub_errors_push)]
+            fn $name() {
+                for_each_sequence(&$kinds, $check)
+            }
+        )*
+    };
+}
+
+sequence_harnesses!(
+    c08_empty_reply_sequences => (K_QUICK, empty_reply_check),
+    c08_empty_reply_sequences_full => (K_FULL, empty_reply_check),
+    c08_data_reply_sequences => (K_QUICK, data_reply_check),
+    c08_data_reply_sequences_full => (K_FULL, data_reply_check),
+);
+
+#[cfg(feature = "junos")]
+sequence_harnesses!(
+    c08_bare_reply_sequences => (K_QUICK, bare_reply_check),
+    c08_bare_reply_sequences_full => (K_FULL, bare_reply_check),
+);
 
 #[kani::proof]
 fn cal_nothing() {
@@ -268,37 +599,43 @@ fn outcome_code(r: &Result<EmptyReply, ReadError>) -> u8 {
     }
 }
 
-/// C13 (comments): inserting a comment before, between or after the items of a reply does
-/// not change what `EmptyReply` makes of it.
-#[kani::proof]
-#[kani::unwind(10)]
-#[kani::stub(<crate::message::rpc::Error as crate::message::ReadXml>::read_xml, crate::message::rpc::error::verif_error::stub_read_xml)]
-#[kani::stub(crate::message::rpc::Errors::new, crate::message::rpc::error::verif_error::stub_errors_new)]
-#[kani::stub(crate::message::rpc::Errors::push, crate::message::rpc::error::verif_error::stub_errors_push)]
-fn c13_empty_reply_comment_insertion() {
+/// C13 (comments): inserting a comment before or after an item of a reply does not change
+/// what `EmptyReply` makes of it.  One harness per item kind (the position is symbolic).
+fn comment_insertion_body(first: Option<Item>, _fam: Option<Fam>) {
     use_reply_tables();
-    let item = Item::any();
-    kani::assume(item != Item::Comment);
+    let item = first.unwrap();
     let mut t1 = Tape::EMPTY;
     push_item_stubbed(&mut t1, item);
     reply_close(&mut t1);
-    let before: bool = kani::any();
+    // both positions, each on its own (concrete) tape: with a symbolic position the cursor
+    // positions of the second run would be symbolic from the first event on
     let mut t2 = Tape::EMPTY;
-    if before {
-        t2.push(cells::COMMENT);
-    }
+    t2.push(cells::COMMENT);
     push_item_stubbed(&mut t2, item);
-    if !before {
-        t2.push(cells::COMMENT);
-    }
     reply_close(&mut t2);
+    let mut t3 = Tape::EMPTY;
+    push_item_stubbed(&mut t3, item);
+    t3.push(cells::COMMENT);
+    reply_close(&mut t3);
     let r1 = empty_reply_on(t1);
     let r2 = empty_reply_on(t2);
-    assert!(outcome_code(&r1) == outcome_code(&r2), "C13 EmptyReply: a comment changes the outcome");
-    kani::cover!(outcome_code(&r1) == 0, "ok reply");
-    kani::cover!(outcome_code(&r1) == 1, "error reply");
-    std::mem::forget((r1, r2));
+    let r3 = empty_reply_on(t3);
+    assert!(outcome_code(&r1) == outcome_code(&r2), "C13 EmptyReply: a comment before an item changes the outcome");
+    assert!(outcome_code(&r1) == outcome_code(&r3), "C13 EmptyReply: a comment after an item changes the outcome");
+    kani::cover!(true, "all three readings completed");
+    std::mem::forget((r1, r2, r3));
 }
+
+split_harnesses!(comment_insertion_body:
+    c13_comment_insertion_ok => (Some(Item::Ok), None),
+    c13_comment_insertion_err_error => (Some(Item::ErrError), None),
+    c13_comment_insertion_err_warning => (Some(Item::ErrWarning), None),
+    c13_comment_insertion_data => (Some(Item::Data), None),
+    c13_comment_insertion_ok_pair => (Some(Item::OkPair), None),
+    c13_comment_insertion_other => (Some(Item::Other), None),
+    c13_comment_insertion_foreign_ok => (Some(Item::ForeignOk), None),
+    c13_comment_insertion_text => (Some(Item::Text), None),
+);
 
 /// C13 (empty-element form): `<ok/>` and `<ok></ok>` carry the same information.
 #[kani::proof]
@@ -347,17 +684,13 @@ fn c13_partial_reply_xml_declaration() {
 // =================================================================================================
 // C14: arbitrary event sequences never panic or loop.
 
-/// C14: `Reply::<CloseSession>::from_xml` over a tape of up to 4 *arbitrary* cells (any kind
-/// including tokenizer errors and unbalanced ends, any known name, namespace and text,
-/// message-id texts including huge, negative, empty and non-numeric ones): returns `Ok` or
-/// `Err`; no panic, no arithmetic overflow (Kani's checks), every loop ends within the tape
-/// (unwinding assertions).
-#[kani::proof]
-#[kani::unwind(10)]
-#[kani::stub(<crate::message::rpc::Error as crate::message::ReadXml>::read_xml, crate::message::rpc::error::verif_error::stub_read_xml)]
-#[kani::stub(crate::message::rpc::Errors::new, crate::message::rpc::error::verif_error::stub_errors_new)]
-#[kani::stub(crate::message::rpc::Errors::push, crate::message::rpc::error::verif_error::stub_errors_push)]
-fn c14_reply_arbitrary_events() {
+/// C14: `Reply::<CloseSession>::from_xml` over a tape of exactly `K` *arbitrary* cells followed
+/// by the end of input (any kind including tokenizer errors and unbalanced ends, any known
+/// name, namespace and text, message-id texts including huge, negative, empty and non-numeric
+/// ones): returns `Ok` or `Err`; no panic, no arithmetic overflow (Kani's checks), every loop
+/// ends within the tape (unwinding assertions).  One harness per length, so that the tape length
+/// is a constant for symex.
+fn arbitrary_events_body<const K: usize>() {
     use crate::message::rpc::operation::CloseSession;
     use quick_xml::tape::{AttrCell, Cell};
     use_reply_tables();
@@ -365,31 +698,72 @@ fn c14_reply_arbitrary_events() {
     let idt: u8 = kani::any();
     kani::assume(idt < 16);
     t.attrs[0] = AttrCell::new(a::MESSAGE_ID, idt);
-    let n: usize = kani::any();
-    kani::assume(n <= 4);
     let mut i = 0;
-    while i < 4 {
-        if i < n {
-            let kind: u8 = kani::any();
-            kani::assume(kind <= 9);
-            let nsc: u8 = kani::any();
-            kani::assume(nsc <= 4 || nsc == 255);
-            let name: u8 = kani::any();
-            kani::assume(name < 12);
-            let text: u8 = kani::any();
-            kani::assume(text < 16);
-            let with_attr: bool = kani::any();
-            let mut c = Cell { kind, ns: nsc, name, text, attr0: 0, nattr: 0 };
-            if with_attr {
-                c.nattr = 1;
-            }
-            t.push(c);
-        }
+    while i < K {
+        let kind: u8 = kani::any();
+        kani::assume(kind <= 9);
+        let nsc: u8 = kani::any();
+        kani::assume(nsc <= 4 || nsc == 255);
+        let name: u8 = kani::any();
+        kani::assume(name < 12);
+        let text: u8 = kani::any();
+        kani::assume(text < 16);
+        let with_attr: bool = kani::any();
+        t.push(Cell { kind, ns: nsc, name, text, attr0: 0, nattr: with_attr as u8, skip: 0 });
         i += 1;
     }
     tape::register(0, t);
     let r = Reply::<CloseSession>::from_xml(tape::input_for(0));
-    kani::cover!(r.is_ok(), "some arbitrary tape is a valid reply");
     kani::cover!(r.is_err(), "some arbitrary tape is rejected");
+    std::mem::forget(r);
+}
+
+macro_rules! c14_harnesses {
+    ($( $name:ident => $k:literal ),* $(,)?) => {
+        $(
+            #[kani::proof]
+            #[kani::unwind(10)]
+            #[kani::stub(<crate::message::rpc::Error as crate::message::ReadXml>::read_xml, crate::message::rpc::error::verif_error::stub_read_xml)]
+            #[kani::stub(crate::message::rpc::Errors::new, crate::message::rpc::error::verif_error::stub_errors_new)]
+            #[kani::stub(crate::message::rpc::Errors::push, crate::message::rpc::error::verif_error::stub_errors_push)]
+            fn $name() {
+                arbitrary_events_body::<$k>()
+            }
+        )*
+    };
+}
+
+c14_harnesses!(
+    c14_reply_arbitrary_events_1 => 1,
+    c14_reply_arbitrary_events_2 => 2,
+    c14_reply_arbitrary_events_3 => 3,
+    c14_reply_arbitrary_events_4 => 4,
+);
+
+fn cal_f(x: u8) -> Result<u8, crate::Error> {
+    if x > 200 {
+        Err(crate::Error::DequeueMessage)
+    } else {
+        Ok(x)
+    }
+}
+
+fn cal_g(x: u8) -> Result<u8, crate::Error> {
+    let a = cal_f(x)?;
+    let b = cal_f(a)?;
+    let c = cal_f(b)?;
+    let d = cal_f(c)?;
+    let e = cal_f(d)?;
+    let f = cal_f(e)?;
+    let g = cal_f(f)?;
+    let h = cal_f(g)?;
+    Ok(h)
+}
+
+#[kani::proof]
+fn cal_err_moves() {
+    let x: u8 = kani::any();
+    let r = cal_g(x);
+    assert!(r.is_ok() == (x <= 200));
     std::mem::forget(r);
 }
